@@ -3,6 +3,7 @@ package main
 import (
 	"go/ast"
 	"go/types"
+	"strings"
 )
 
 // Function values. The library stores no functions besides the Config callbacks, but ordinary Go style passes them
@@ -38,15 +39,95 @@ func (a *Analysis) higherOrder(fn *FuncInfo) bool {
 		return v
 	}
 	ho := false
-	if fn.Pkg.PkgPath == modPath || fn.Pkg.PkgPath == modPath+"/timer" {
+	if strings.HasPrefix(fn.Pkg.PkgPath, modPath) {
 		for _, p := range fn.Params {
 			if _, ok := p.Type().Underlying().(*types.Signature); ok {
 				ho = true
 			}
 		}
+		if !ho && fn.Decl != nil && fn.Decl.Body != nil && !fn.Decl.Name.IsExported() {
+			// a table handed in as a parameter and written through ("sendOwn(d.CommitPayloads, msg)"): which table
+			// is written is known at the call site only
+			ast.Inspect(fn.Decl.Body, func(n ast.Node) bool {
+				as, ok := n.(*ast.AssignStmt)
+				if !ok {
+					return true
+				}
+				for _, l := range as.Lhs {
+					ix, ok := ast.Unparen(l).(*ast.IndexExpr)
+					if !ok {
+						continue
+					}
+					id, ok := ast.Unparen(ix.X).(*ast.Ident)
+					if !ok {
+						continue
+					}
+					v, _ := fn.Pkg.TypesInfo.Uses[id].(*types.Var)
+					for _, p := range fn.Params {
+						if p == v {
+							switch p.Type().Underlying().(type) {
+							case *types.Slice, *types.Map:
+								ho = true
+							}
+						}
+					}
+				}
+				return true
+			})
+		}
+	}
+	if !ho && fn.Pkg.PkgPath == modPath && fn.Decl != nil && fn.Decl.Body != nil && !fn.Decl.Name.IsExported() {
+		// a shared helper with several results ("ok, err := d.verifyCommitAgainstHeader(m)"): a summary keeps the
+		// classes of its results but not how they hang together with what it did; with at least two call sites
+		// it is no single-caller helper either. Small and not recursive: walked at each call site.
+		a.computePurity()
+		if sig, ok := fn.Obj.Type().(*types.Signature); ok && sig.Results().Len() >= 2 && a.ncalls[fn] >= 2 &&
+			!a.pure[fn] && !a.escapes[fn] && stmtCount(fn.Decl.Body) <= 40 && !a.callsItself(fn) {
+			ho = true
+		}
+	}
+	if !ho && fn.Pkg.PkgPath == modPath+"/timer" && fn.Decl != nil && fn.Decl.Body != nil && !fn.Decl.Name.IsExported() {
+		// package timer is a handful of public methods over private helpers: each public method is read as a whole
+		a.computePurity()
+		if a.ncalls[fn] >= 1 && !a.escapes[fn] && stmtCount(fn.Decl.Body) <= 40 && !a.callsItself(fn) {
+			ho = true
+		}
 	}
 	a.hoCache[fn] = ho
 	return ho
+}
+
+// callsItself: fn is on a cycle of the module's static call graph.
+func (a *Analysis) callsItself(fn *FuncInfo) bool {
+	seen := map[*FuncInfo]bool{}
+	var visit func(f *FuncInfo) bool
+	visit = func(f *FuncInfo) bool {
+		found := false
+		ast.Inspect(f.Decl.Body, func(n ast.Node) bool {
+			call, ok := n.(*ast.CallExpr)
+			if !ok || found {
+				return !found
+			}
+			w := &Walker{A: a, Fn: f, info: f.Pkg.TypesInfo}
+			t := w.staticCallee(call)
+			if t == nil || t.Decl == nil || t.Decl.Body == nil {
+				return true
+			}
+			if t == fn {
+				found = true
+				return false
+			}
+			if !seen[t] {
+				seen[t] = true
+				if visit(t) {
+					found = true
+				}
+			}
+			return !found
+		})
+		return found
+	}
+	return visit(fn)
 }
 
 // funcValueOf: the function value a call's Fun expression denotes in this state, if it is a local / parameter holding one.
